@@ -641,6 +641,10 @@ impl Mass for Locomotive {
         );
 
         let derived_mass = self.derived_mass().with_context(|| format_dbg!())?;
+        // Resolve everything that can fail before any field is modified
+        let mu = self
+            .mu
+            .with_context(|| format!("{}\nExpected `mu` to be set", format_dbg!()))?;
         self.mass = match new_mass {
             // Set using provided `new_mass`, setting constituent mass fields to `None` to match if inconsistent
             Some(new_mass) => {
@@ -665,12 +669,9 @@ impl Mass for Locomotive {
         };
         #[cfg(feature = "logging")]
         log::info!("Updating `force_max` to correspond to new mass.");
-        self.force_max = self
-            .mu()
-            .with_context(|| format_dbg!())?
-            .with_context(|| format!("{}\nExpected `mu` to be set", format_dbg!()))?
+        self.force_max = mu
             * self
-                .mass()?
+                .mass
                 .with_context(|| format!("{}\nExpected `mass` to be set", format_dbg!()))?
             * uc::ACC_GRAV;
         Ok(())
@@ -709,13 +710,12 @@ impl Locomotive {
         force_max: si::Force,
         side_effect: ForceMaxSideEffect,
     ) -> anyhow::Result<()> {
-        self.force_max = force_max;
         match side_effect {
             ForceMaxSideEffect::Mass => self
                 .set_mass(
                     Some(
                         force_max
-                            / (self.mu().with_context(|| format_dbg!())?.with_context(|| {
+                            / (self.mu.with_context(|| {
                                 format_dbg!("Expected traction coefficient to be set.")
                             })? * uc::ACC_GRAV),
                     ),
@@ -736,6 +736,8 @@ impl Locomotive {
                 self.mass = None;
             }
         }
+        // assigned last so that a rejected update leaves the locomotive untouched
+        self.force_max = force_max;
         Ok(())
     }
 
@@ -1156,21 +1158,29 @@ impl Locomotive {
     }
 
     pub fn set_mu(&mut self, mu: si::Ratio, mu_side_effect: MuSideEffect) -> anyhow::Result<()> {
-        self.mu = Some(mu);
         match mu_side_effect {
-            MuSideEffect::Mass => self.set_mass(
-                Some(self.force_max / (mu * uc::ACC_GRAV)),
-                MassSideEffect::None,
-            ),
+            MuSideEffect::Mass => {
+                // `set_mass` reads `self.mu`: restore the old value if it rejects the update
+                let mu_old = self.mu.replace(mu);
+                let res = self.set_mass(
+                    Some(self.force_max / (mu * uc::ACC_GRAV)),
+                    MassSideEffect::None,
+                );
+                if res.is_err() {
+                    self.mu = mu_old;
+                }
+                res
+            }
             MuSideEffect::ForceMax => {
-                self.force_max = mu
-                    * uc::ACC_GRAV
-                    * self
-                        .mass()?
-                        .with_context(|| format_dbg!("Expected `mass` to be Some."))?;
+                let mass = self
+                    .mass()?
+                    .with_context(|| format_dbg!("Expected `mass` to be Some."))?;
+                self.mu = Some(mu);
+                self.force_max = mu * uc::ACC_GRAV * mass;
                 Ok(())
             }
             MuSideEffect::SetMassToNone => {
+                self.mu = Some(mu);
                 self.mass = None;
                 Ok(())
             }
